@@ -9,7 +9,7 @@ from . import common as C
 BUILDS = [("g++", "17"), ("g++", "20"), ("clang++", "14"), ("clang++", "20")]
 SRC = os.path.join(C.HARNESS, "conv_main.cpp")
 ARCH = os.path.join(C.HARNESS, "archetypes.hpp")
-NPAIRS = 68
+NPAIRS = 72
 NPARTS = 8
 
 ARCHETYPES = ["A1", "A2", "A3", "A4", "A5", "A6"]
@@ -228,8 +228,8 @@ def run_check(prop, tier, verdict, builds=None, archetypes=True):
     nviol += av
     cov = dict(conv_evaluations=int(evals), conv_nontrivial_evaluations=int(nontriv), conv_builds=per_build, conv_samples=samples,
                archetype_probes=ae, archetype_nontrivial=an, archetype_samples=asamples,
-               conv_rule=("68 (From -> To) pairs (integral pairs of equal/different width and signedness, bool targets, char kinds incl. char8_t/16_t/32_t/wchar_t, enums, "
-                          "float/double <-> integers with in-range values, pointer pairs incl. Derived* -> SecondBase* with a non-zero offset, void*, null) x 11 source iterator "
+               conv_rule=("72 (From -> To) pairs (integral pairs of equal/different width and signedness, bool targets, char kinds incl. char8_t/16_t/32_t/wchar_t, enums, "
+                          "float/double <-> integers with in-range values, pointer pairs incl. Derived* -> SecondBase* with a non-zero offset (polymorphic and plain standard-layout bases, a base behind a vptr, a virtual base), void*, null) x 11 source iterator "
                           "kinds x {range ctor, assign x3 states, insert x4 states, append, emplace_back/emplace} x N in {0,4}; boundary values plus rapidcheck arbitrary values; "
                           "oracle: every stored element == static_cast<To>(source) and == the same operation on std::vector<To>; a pair that std::vector accepts must compile. "
                           "Non-trivial = a mid-sequence range insert of a non-empty converting range."),
